@@ -675,7 +675,10 @@ static int cmp_bytes(const void *a, const void *b, void *p)
         && (unsigned char *)b >= cmp_lo && (unsigned char *)b + es <= cmp_hi, "sort.cmp-outside-buffer",
         "comparison called with %p / %p outside the vector's buffer", a, b);
     VRT_COUNT("sort.comparisons");
-    return memcmp(a, b, es);
+    {
+        const int r = memcmp(a, b, es);
+        return vrt_cmp_result((r > 0) - (r < 0), (unsigned)(*(const unsigned char *)a * 7 + *(const unsigned char *)b));
+    }
 }
 static void model_sort(struct vm *m)
 {
